@@ -135,6 +135,21 @@ def wrap_history(rng, peers):
 
 
 def validate(chk, traces, peers_set, label):
+    """splits the traces into chunks of at most ~25 MB of ndjson per TLC run (every TLC worker holds its own copy of the
+    deserialised file, and long histories log the full tables at every step)"""
+    chunk, size = [], 0
+    for t in traces:
+        n = sum(len(json.dumps(e["st"])) for e in t["evs"])
+        if chunk and size + n > 25_000_000:
+            _validate(chk, chunk, peers_set, label)
+            chunk, size = [], 0
+        chunk.append(t)
+        size += n
+    if chunk:
+        _validate(chk, chunk, peers_set, label)
+
+
+def _validate(chk, traces, peers_set, label):
     if not traces:
         return
     wd = tlc.workdir("trids")
@@ -152,7 +167,7 @@ def validate(chk, traces, peers_set, label):
                                 "evs": [dict(op=e["op"], a=e["a"], id=e["id"], k=e["k"], st=e["st"]) for e in t["evs"]]}) + "\n")
     c = cfg(side="both", peers=peers_set, idmod=256, ids="{0}", starts="{0}", maxlive=100000, maxreq=100000, spec="TSpec")
     try:
-        res = tlc.run_tlc("Trace_TSMids", cfg_text=c, workers=8, timeout=1800, env={"TRACE_FILE": tf}, name="Trace_TSMids/" + label)
+        res = tlc.run_tlc("Trace_TSMids", cfg_text=c, workers=4, timeout=1800, env={"TRACE_FILE": tf}, name="Trace_TSMids/" + label)
     finally:
         shutil.rmtree(wd, ignore_errors=True)
     if res["error_kind"]:
